@@ -246,6 +246,8 @@ class SymBytes(Sym):
                 return False
             return mkbool(z3.And(*[x == y for x, y in zip(a, b)])) if a else True
         pa, pb = _merge(self.parts), _merge(o.parts)
+        if not pa or not pb:
+            return mkbool(iterm(self.length()) == iterm(o.length()))
         # piecewise comparison: same shape after merging
         if len(pa) == len(pb) and all(type(x) is type(y) for x, y in zip(pa, pb)):
             conj = []
@@ -391,6 +393,36 @@ def _merge(parts):
     return out
 
 
+def _byte_bits_registry():
+    eng = E.current()
+    reg = eng.memo.get("byte_bits")
+    if reg is None:
+        reg = eng.memo["byte_bits"] = {}
+    return reg
+
+
+def terms_to_int(ts):
+    """big-endian byte terms -> SymInt/int; keeps the bit decomposition when every byte was built from bits"""
+    reg = _byte_bits_registry()
+    bits = []
+    ok = True
+    for t in reversed(ts):
+        b = reg.get(t.get_id()) if not z3.is_int_value(t) else [z3.BoolVal(bool((t.as_long() >> i) & 1)) for i in range(8)]
+        if b is None:
+            ok = False
+            break
+        bits.extend(b)
+    if ok and ts and not all(z3.is_int_value(t) for t in ts):
+        return SymInt.from_bits(bits)
+    tot = z3.IntVal(0)
+    for t in ts:
+        tot = tot * 256 + t
+    tot = z3.simplify(tot)
+    if z3.is_int_value(tot):
+        return tot.as_long()
+    return SymInt(tot, 8 * len(ts), None, list(ts))
+
+
 def int_from_bytes(b, byteorder="big", signed=False):
     b = SymBytes.lift(b)
     ts = b.terms()
@@ -398,27 +430,38 @@ def int_from_bytes(b, byteorder="big", signed=False):
         raise Unmodelled("signed from_bytes")
     if byteorder == "little":
         ts = list(reversed(ts))
-    tot = z3.IntVal(0)
-    for t in ts:
-        tot = tot * 256 + t
-    return mkint(tot, 8 * len(ts))
+    return terms_to_int(ts)
 
 
 def int_to_bytes(v, length, byteorder="big"):
-    """split a symbolic non-negative int into `length` fresh byte terms (linear constraint); raises
-    OverflowError on the paths where it does not fit"""
+    """split a symbolic non-negative int into `length` byte terms; raises OverflowError on the paths where it
+    does not fit.  Values with a known bit width are split through their bit decomposition (no fresh bytes)."""
     eng = E.current()
     if isinstance(v, int):
         return SymBytes.lift(v.to_bytes(length, byteorder))
     if not eng.branch(z3.And(v.term >= 0, v.term < (1 << (8 * length)))):
         raise OverflowError("int too big to convert")
-    bs = [eng.fresh("byte", "int") for _ in range(length)]
-    for x in bs:
-        eng.add(z3.And(x >= 0, x <= 255))
-    tot = z3.IntVal(0)
-    for x in bs:
-        tot = tot * 256 + x
-    eng.add(tot == v.term)
+    if v._bits is not None or v.width is not None:
+        bits = list(v.bits())[:8 * length]
+        bits = bits + [z3.BoolVal(False)] * (8 * length - len(bits))
+        reg = _byte_bits_registry()
+        bs = []
+        for j in range(length - 1, -1, -1):        # big-endian: most significant byte first
+            bb = bits[8 * j:8 * j + 8]
+            t = z3.Sum([z3.If(x, z3.IntVal(1 << i), z3.IntVal(0)) for i, x in enumerate(bb)])
+            t = z3.simplify(t)
+            if not z3.is_int_value(t):
+                reg[t.get_id()] = bb
+                eng.memo.setdefault("keepalive", []).append(t)
+            bs.append(t)
+    else:
+        bs = [eng.fresh("byte", "int") for _ in range(length)]
+        for x in bs:
+            eng.add(z3.And(x >= 0, x <= 255))
+        tot = z3.IntVal(0)
+        for x in bs:
+            tot = tot * 256 + x
+        eng.add(tot == v.term)
     if byteorder == "little":
         bs = list(reversed(bs))
     return SymBytes([BPart(bs)])
